@@ -133,3 +133,6 @@ package generator
 
 //@ func SQLTableName
 //@   pure
+
+//@ func ToLowerFirst
+//@   pure
